@@ -172,6 +172,23 @@ func init() {
 		}
 		return nil
 	})
+	regVerif("And", func(e *Engine, fn *ssa.Function, a []Value, s ssa.Instruction) Value {
+		r := tTrue
+		for _, x := range argSlice(a[0]) {
+			r = And(r, T(x))
+		}
+		return r
+	})
+	regVerif("Or", func(e *Engine, fn *ssa.Function, a []Value, s ssa.Instruction) Value {
+		r := tFalse
+		for _, x := range argSlice(a[0]) {
+			r = Or(r, T(x))
+		}
+		return r
+	})
+	regVerif("Implies", func(e *Engine, fn *ssa.Function, a []Value, s ssa.Instruction) Value {
+		return Or(Not(T(a[0])), T(a[1]))
+	})
 	regVerif("Symbolic", func(e *Engine, fn *ssa.Function, a []Value, s ssa.Instruction) Value { return tTrue })
 	regVerif("Thorough", func(e *Engine, fn *ssa.Function, a []Value, s ssa.Instruction) Value { return mkBool(e.cfg.Thorough) })
 
